@@ -8,6 +8,12 @@ import sys, os, operator, warnings, traceback
 from fractions import Fraction
 
 warnings.simplefilter("ignore")
+try:
+    import resource
+    _lim = int(os.environ.get("VERIF_WORKER_MEM", str(3 << 30)))
+    resource.setrlimit(resource.RLIMIT_AS, (_lim, _lim))   # a runaway case raises MemoryError instead of being OOM-killed
+except Exception:
+    pass
 sys.path.insert(0, os.path.dirname(os.path.abspath(__file__)))
 import canon
 
